@@ -46,7 +46,7 @@ def check(rep, model, tier):
             rep.violation('ARCH', f'{name}:find_extrema signal', site, expected=T.show(want), found=[T.brief(g, 60) if g else None for g in got])
     n = 0
     if A is None or B is None or A[0] != 'table' or B[0] != 'table':
-        rep.unresolved('MIRROR-SHAPE', 'tables', site, 'compute_shape_features did not evaluate to a table')
+        rep.violation('MIRROR-SHAPE', 'tables', site, expected='both runs return a table', found=f'{T.brief(A, 120) if A else None} / {T.brief(B, 120) if B else None}')
     else:
         mA, dB = mirror_table(A), dict(B[1])
         if set(mA) != set(dB):
@@ -87,7 +87,7 @@ def check(rep, model, tier):
         r, ctx = E.run(model, det, {f.params[0]: S})
         lab = dict(r[1]).get('is_burst') if r and r[0] == 'table' else None
         if lab is None:
-            rep.unresolved('LABEL-INDEP', det, f'{f.path}:{f.node.lineno} {det}', 'no is_burst column term')
+            rep.violation('LABEL-INDEP', det, f'{f.path}:{f.node.lineno} {det}', expected='a table with an is_burst column', found=T.brief(r, 160) if r else 'no value returned')
             continue
         read = modelled_reads(lab, ctx.unmodelled)
         if read <= set(cols):
